@@ -228,3 +228,17 @@ HIPOLD_INPUTS = {
 
 HIPOLD_OUTPUTS = ['Producible Heat', 'Producible Electricity', 'Stored Heat', 'Available Heat', 'Wellhead Heat',
                   'Recovery Factor', 'Fluid Produced', 'Enthalpy', 'Reservoir Volume']
+
+
+# the driver's documented rule "a result row containing -9999.0 is left out of the statistics": a HIP-RA-X set-up whose
+# rock enthalpy lands in -9999.0x for about a quarter of the draws (found by a sub-agent; values checked against the pinned tree)
+HIP_9999_BASE = """Reservoir Temperature, 50
+Rejection Temperature, 200
+Reservoir Porosity, 10.0
+Reservoir Area, 55.0
+Reservoir Thickness, 0.25
+Reservoir Life Cycle, 25
+Density Of Reservoir Rock, 1e11
+"""
+HIP_9999_INPUT = {'name': 'Rock Heat Capacity', 'dist': 'uniform', 'args': [6.66590e12, 6.66614e12], 'edge': False, 'discrete': False}
+HIP_9999_OUTPUTS = ['Specific Enthalpy (rock)', 'Producible Electricity (reservoir)']
